@@ -400,6 +400,195 @@ theorem encrypt0_emitted_normal (m : CoseEncrypt0) (k : Nat) (hk : k + 2 ≤ rec
   obtain ⟨n3, d3⟩ := normal_optBytes m.ciphertext hct
   exact ⟨by simp only [Normal, NormalL]; exact ⟨by simp, n1, n2, n3, trivial⟩, by simp only [depthOf, depthOfL] at d1 d3 ⊢; omega⟩
 
+/-! ### recipients (nested to any depth), COSE_Encrypt, COSE_Mac -/
+
+mutual
+/-- field-level normality of a recipient emitted with nesting budget `j` for its array. -/
+def CoseRecipient.NF : Nat → CoseRecipient → Prop
+  | j, .mk p u ct rs => 2 ≤ j ∧ ProtectedHeader.NF p ∧ Header.NF (j - 2) u ∧ (∀ b, ct = some b → b.length < 2 ^ 64) ∧
+      rs.length < 2 ^ 64 ∧ rcpsNF (j - 2) rs
+def rcpsNF : Nat → List CoseRecipient → Prop
+  | _, [] => True
+  | j, r :: rs => CoseRecipient.NF j r ∧ rcpsNF j rs
+end
+
+theorem headerSlots_of_rt (p : ProtectedHeader) (u : Header) (hp : ProtectedHeader.WF maxNest p) (hu : Header.WF maxNest u) :
+    ∃ b y, headerSlots p u = .ok [.bytes b, y] := by
+  obtain ⟨b, y, _, _, hs, _⟩ := slots_rt p u hp hu
+  exact ⟨b, y, hs⟩
+
+theorem recipient_emit_normal : ∀ (n : Nat) (r : CoseRecipient) (j : Nat), r.height ≤ n → r.WF → CoseRecipient.NF j r →
+    ∃ x, r.toValue = .ok x ∧ Normal x ∧ depthOf x ≤ j := by
+  intro n
+  induction n with
+  | zero => intro r j h; cases r; simp [CoseRecipient.height] at h
+  | succ n ih =>
+    intro r j hh hw hn
+    cases r with
+    | mk p u ct rs =>
+      simp only [CoseRecipient.WF] at hw
+      simp only [CoseRecipient.NF] at hn
+      simp only [CoseRecipient.height] at hh
+      obtain ⟨hj, hpn, hun, hct, hrl, hrn⟩ := hn
+      obtain ⟨b, y, hs⟩ := headerSlots_of_rt p u hw.1 hw.2.1
+      obtain ⟨n1, d1, n2, d2⟩ := slots_emit_normal p u (j - 2) hw.1 hw.2.1 hpn hun _ _ hs
+      obtain ⟨n3, d3⟩ := normal_optBytes ct hct
+      -- the nested recipients
+      have hnest : ∀ rs : List CoseRecipient, heightL rs ≤ n → rcpsWF rs → rcpsNF (j - 2) rs →
+          ∃ ys, recipientsToValues rs = .ok ys ∧ ys.length = rs.length ∧ ∀ z ∈ ys, Normal z ∧ depthOf z ≤ j - 2 := by
+        intro rs
+        induction rs with
+        | nil => intro _ _ _; exact ⟨[], by simp [recipientsToValues], rfl, by simp⟩
+        | cons r0 rs0 ihr =>
+          intro h1 h2 h3
+          simp only [rcpsWF] at h2
+          simp only [rcpsNF] at h3
+          simp only [heightL] at h1
+          obtain ⟨ys, a1, a2, a3⟩ := ihr (by omega) h2.2 h3.2
+          obtain ⟨x0, b1, b2, b3⟩ := ih r0 (j - 2) (by omega) h2.1 h3.1
+          refine ⟨x0 :: ys, by simp [recipientsToValues, b1, a1], by simp [a2], ?_⟩
+          intro z hz
+          rcases List.mem_cons.mp hz with rfl | hz'
+          · exact ⟨b2, b3⟩
+          · exact a3 z hz'
+      have hnest := hnest rs (by omega) hw.2.2 hrn
+      obtain ⟨ys, e1, e2, e3⟩ := hnest
+      cases rs with
+      | nil =>
+        refine ⟨.array [.bytes b, y, optBytesToValue ct], by simp [CoseRecipient.toValue, hs], ?_, ?_⟩
+        · simp only [Normal, NormalL]; exact ⟨by simp, n1, n2, n3, trivial⟩
+        · simp only [depthOf, depthOfL] at d1 d3 ⊢; omega
+      | cons r0 rs0 =>
+        have n4 : Normal (.array ys) := by simp only [Normal]; exact ⟨by rw [e2]; exact hrl, normalL_of ys (fun z hz => (e3 z hz).1)⟩
+        have d4 : depthOfL ys ≤ j - 2 := depthOfL_le (j - 2) ys (fun z hz => (e3 z hz).2)
+        refine ⟨.array [.bytes b, y, optBytesToValue ct, .array ys], by simp [CoseRecipient.toValue, hs, e1], ?_, ?_⟩
+        · simp only [Normal, NormalL]; exact ⟨by simp, n1, n2, n3, n4, trivial⟩
+        · simp only [depthOf, depthOfL] at d1 d3 ⊢; omega
+
+theorem rcps_emit_normal (j : Nat) : ∀ rs, rcpsWF rs → rcpsNF j rs →
+    ∃ ys, recipientsToValues rs = .ok ys ∧ ys.length = rs.length ∧ ∀ z ∈ ys, Normal z ∧ depthOf z ≤ j := by
+  intro rs
+  induction rs with
+  | nil => intro _ _; exact ⟨[], by simp [recipientsToValues], rfl, by simp⟩
+  | cons r rs ih =>
+    intro hw hn
+    simp only [rcpsWF] at hw
+    simp only [rcpsNF] at hn
+    obtain ⟨ys, a1, a2, a3⟩ := ih hw.2 hn.2
+    obtain ⟨x, b1, b2, b3⟩ := recipient_emit_normal r.height r j (Nat.le_refl _) hw.1 hn.1
+    refine ⟨x :: ys, by simp [recipientsToValues, b1, a1], by simp [a2], ?_⟩
+    intro z hz
+    rcases List.mem_cons.mp hz with rfl | hz'
+    · exact ⟨b2, b3⟩
+    · exact a3 z hz'
+
+/-- COSE_Encrypt built in memory, recipients nested to any depth within the budget. -/
+theorem encrypt_built_bytes (m : CoseEncrypt) (k j : Nat) (hk : k + 2 ≤ recursionLimit) (hj : j + 2 ≤ recursionLimit)
+    (hp : ProtectedHeader.WF maxNest m.protected_) (hu : Header.WF maxNest m.unprotected) (hr : rcpsWF m.recipients)
+    (hpn : ProtectedHeader.NF m.protected_) (hun : Header.NF k m.unprotected) (hrn : rcpsNF j m.recipients)
+    (hrl : m.recipients.length < 2 ^ 64) (hct : ∀ b, m.ciphertext = some b → b.length < 2 ^ 64) :
+    ∃ bs m', toVec CoseEncrypt.toValue m = .ok bs ∧ fromSlice CoseEncrypt.fromValue bs = .ok m' ∧
+      ProtectedHeader.erase m'.protected_ = ProtectedHeader.erase m.protected_ ∧ Header.erase m'.unprotected = Header.erase m.unprotected ∧
+      m'.ciphertext = m.ciphertext ∧ eraseRcps m'.recipients = eraseRcps m.recipients := by
+  obtain ⟨b, y, p', u', hs, g2, g3, g4, g5, _⟩ := slots_rt _ _ hp hu
+  obtain ⟨ys, rs', e1, e2, e3⟩ := rcps_rt _ hr
+  obtain ⟨ys2, f1, f2, f3⟩ := rcps_emit_normal j m.recipients hr hrn
+  rw [e1] at f1; simp at f1; subst f1
+  have h1 : m.toValue = .ok (.array [.bytes b, y, optBytesToValue m.ciphertext, .array ys]) := by simp [CoseEncrypt.toValue, hs, e1]
+  have h2 : CoseEncrypt.fromValue (.array [.bytes b, y, optBytesToValue m.ciphertext, .array ys]) = .ok ⟨p', u', m.ciphertext, rs'⟩ :=
+    (encrypt_ok_iff _ _).mpr ⟨.bytes b, y, _, ys, rfl, g2, g3, optBytes_emit _, e2⟩
+  obtain ⟨n1, d1, n2, d2⟩ := slots_emit_normal _ _ k hp hu hpn hun _ _ hs
+  obtain ⟨n3, d3⟩ := normal_optBytes m.ciphertext hct
+  have n4 : Normal (.array ys) := by simp only [Normal]; exact ⟨by rw [f2]; exact hrl, normalL_of ys (fun z hz => (f3 z hz).1)⟩
+  have d4 : depthOfL ys ≤ j := depthOfL_le j ys (fun z hz => (f3 z hz).2)
+  have hn : Normal (.array [.bytes b, y, optBytesToValue m.ciphertext, .array ys]) := by
+    simp only [Normal, NormalL]; exact ⟨by simp, n1, n2, n3, n4, trivial⟩
+  have hd : depthOf (.array [.bytes b, y, optBytesToValue m.ciphertext, .array ys]) ≤ recursionLimit := by
+    simp only [depthOf, depthOfL] at d1 d3 ⊢; omega
+  refine ⟨enc (.array [.bytes b, y, optBytesToValue m.ciphertext, .array ys]), ⟨p', u', m.ciphertext, rs'⟩, ?_, ?_, g4, g5, rfl, e3⟩
+  · simp only [toVec, h1]
+  · simp only [fromSlice, readToValue_enc _ hn hd, h2]
+
+/-- COSE_Mac built in memory. -/
+theorem mac_built_bytes (m : CoseMac) (k j : Nat) (hk : k + 2 ≤ recursionLimit) (hj : j + 2 ≤ recursionLimit)
+    (hp : ProtectedHeader.WF maxNest m.protected_) (hu : Header.WF maxNest m.unprotected) (hr : rcpsWF m.recipients)
+    (hpn : ProtectedHeader.NF m.protected_) (hun : Header.NF k m.unprotected) (hrn : rcpsNF j m.recipients)
+    (hrl : m.recipients.length < 2 ^ 64) (hpl : ∀ b, m.payload = some b → b.length < 2 ^ 64) (htg : m.tag.length < 2 ^ 64) :
+    ∃ bs m', toVec CoseMac.toValue m = .ok bs ∧ fromSlice CoseMac.fromValue bs = .ok m' ∧
+      ProtectedHeader.erase m'.protected_ = ProtectedHeader.erase m.protected_ ∧ Header.erase m'.unprotected = Header.erase m.unprotected ∧
+      m'.payload = m.payload ∧ m'.tag = m.tag ∧ eraseRcps m'.recipients = eraseRcps m.recipients := by
+  obtain ⟨b, y, p', u', hs, g2, g3, g4, g5, _⟩ := slots_rt _ _ hp hu
+  obtain ⟨ys, rs', e1, e2, e3⟩ := rcps_rt _ hr
+  obtain ⟨ys2, f1, f2, f3⟩ := rcps_emit_normal j m.recipients hr hrn
+  rw [e1] at f1; simp at f1; subst f1
+  have h1 : m.toValue = .ok (.array [.bytes b, y, optBytesToValue m.payload, .bytes m.tag, .array ys]) := by simp [CoseMac.toValue, hs, e1]
+  have h2 : CoseMac.fromValue (.array [.bytes b, y, optBytesToValue m.payload, .bytes m.tag, .array ys]) = .ok ⟨p', u', m.payload, m.tag, rs'⟩ :=
+    (mac_ok_iff _ _).mpr ⟨.bytes b, y, _, ys, rfl, g2, g3, optBytes_emit _, e2⟩
+  obtain ⟨n1, d1, n2, d2⟩ := slots_emit_normal _ _ k hp hu hpn hun _ _ hs
+  obtain ⟨n3, d3⟩ := normal_optBytes m.payload hpl
+  have n4 : Normal (.array ys) := by simp only [Normal]; exact ⟨by rw [f2]; exact hrl, normalL_of ys (fun z hz => (f3 z hz).1)⟩
+  have d4 : depthOfL ys ≤ j := depthOfL_le j ys (fun z hz => (f3 z hz).2)
+  have hn : Normal (.array [.bytes b, y, optBytesToValue m.payload, .bytes m.tag, .array ys]) := by
+    simp only [Normal, NormalL]; exact ⟨by simp, n1, n2, n3, htg, n4, trivial⟩
+  have hd : depthOf (.array [.bytes b, y, optBytesToValue m.payload, .bytes m.tag, .array ys]) ≤ recursionLimit := by
+    simp only [depthOf, depthOfL] at d1 d3 ⊢; omega
+  refine ⟨enc (.array [.bytes b, y, optBytesToValue m.payload, .bytes m.tag, .array ys]), ⟨p', u', m.payload, m.tag, rs'⟩, ?_, ?_, g4, g5, rfl, rfl, e3⟩
+  · simp only [toVec, h1]
+  · simp only [fromSlice, readToValue_enc _ hn hd, h2]
+
+/-- what the three multi-layer messages emit is `Normal` and within the budget. -/
+theorem sign_emitted_normal (m : CoseSign) (k j : Nat) (hk : k + 2 ≤ recursionLimit) (hj : j + 2 ≤ recursionLimit)
+    (hp : ProtectedHeader.WF maxNest m.protected_) (hu : Header.WF maxNest m.unprotected) (hs : sigsWF maxNest m.signatures)
+    (hpn : ProtectedHeader.NF m.protected_) (hun : Header.NF k m.unprotected) (hsn : sigsNF j m.signatures)
+    (hsl : m.signatures.length < 2 ^ 64) (hpl : ∀ b, m.payload = some b → b.length < 2 ^ 64) (x : Value) (hx : m.toValue = .ok x) :
+    Normal x ∧ depthOf x ≤ recursionLimit := by
+  obtain ⟨b, y, p', u', hsl', _⟩ := slots_rt _ _ hp hu
+  obtain ⟨vs, f1, f2, f3⟩ := sigs_emitN maxNest j (emitN_all maxNest).2 m.signatures hs hsn
+  have h1 : m.toValue = .ok (.array [.bytes b, y, optBytesToValue m.payload, .array vs]) := by simp [CoseSign.toValue, hsl', f1]
+  rw [h1] at hx; cases hx
+  obtain ⟨n1, d1, n2, d2⟩ := slots_emit_normal _ _ k hp hu hpn hun _ _ hsl'
+  obtain ⟨n3, d3⟩ := normal_optBytes m.payload hpl
+  have n4 : Normal (.array vs) := by simp only [Normal]; exact ⟨by rw [f2]; exact hsl, normalL_of vs (fun z hz => (f3 z hz).1)⟩
+  have d4 : depthOfL vs ≤ j := depthOfL_le j vs (fun z hz => (f3 z hz).2)
+  exact ⟨by simp only [Normal, NormalL]; exact ⟨by simp, n1, n2, n3, n4, trivial⟩, by simp only [depthOf, depthOfL] at d1 d3 ⊢; omega⟩
+
+theorem encrypt_emitted_normal (m : CoseEncrypt) (k j : Nat) (hk : k + 2 ≤ recursionLimit) (hj : j + 2 ≤ recursionLimit)
+    (hp : ProtectedHeader.WF maxNest m.protected_) (hu : Header.WF maxNest m.unprotected) (hr : rcpsWF m.recipients)
+    (hpn : ProtectedHeader.NF m.protected_) (hun : Header.NF k m.unprotected) (hrn : rcpsNF j m.recipients)
+    (hrl : m.recipients.length < 2 ^ 64) (hct : ∀ b, m.ciphertext = some b → b.length < 2 ^ 64) (x : Value) (hx : m.toValue = .ok x) :
+    Normal x ∧ depthOf x ≤ recursionLimit := by
+  obtain ⟨b, y, p', u', hs, _⟩ := slots_rt _ _ hp hu
+  obtain ⟨ys, f1, f2, f3⟩ := rcps_emit_normal j m.recipients hr hrn
+  have h1 : m.toValue = .ok (.array [.bytes b, y, optBytesToValue m.ciphertext, .array ys]) := by simp [CoseEncrypt.toValue, hs, f1]
+  rw [h1] at hx; cases hx
+  obtain ⟨n1, d1, n2, d2⟩ := slots_emit_normal _ _ k hp hu hpn hun _ _ hs
+  obtain ⟨n3, d3⟩ := normal_optBytes m.ciphertext hct
+  have n4 : Normal (.array ys) := by simp only [Normal]; exact ⟨by rw [f2]; exact hrl, normalL_of ys (fun z hz => (f3 z hz).1)⟩
+  have d4 : depthOfL ys ≤ j := depthOfL_le j ys (fun z hz => (f3 z hz).2)
+  exact ⟨by simp only [Normal, NormalL]; exact ⟨by simp, n1, n2, n3, n4, trivial⟩, by simp only [depthOf, depthOfL] at d1 d3 ⊢; omega⟩
+
+theorem mac_emitted_normal (m : CoseMac) (k j : Nat) (hk : k + 2 ≤ recursionLimit) (hj : j + 2 ≤ recursionLimit)
+    (hp : ProtectedHeader.WF maxNest m.protected_) (hu : Header.WF maxNest m.unprotected) (hr : rcpsWF m.recipients)
+    (hpn : ProtectedHeader.NF m.protected_) (hun : Header.NF k m.unprotected) (hrn : rcpsNF j m.recipients)
+    (hrl : m.recipients.length < 2 ^ 64) (hpl : ∀ b, m.payload = some b → b.length < 2 ^ 64) (htg : m.tag.length < 2 ^ 64)
+    (x : Value) (hx : m.toValue = .ok x) : Normal x ∧ depthOf x ≤ recursionLimit := by
+  obtain ⟨b, y, p', u', hs, _⟩ := slots_rt _ _ hp hu
+  obtain ⟨ys, f1, f2, f3⟩ := rcps_emit_normal j m.recipients hr hrn
+  have h1 : m.toValue = .ok (.array [.bytes b, y, optBytesToValue m.payload, .bytes m.tag, .array ys]) := by simp [CoseMac.toValue, hs, f1]
+  rw [h1] at hx; cases hx
+  obtain ⟨n1, d1, n2, d2⟩ := slots_emit_normal _ _ k hp hu hpn hun _ _ hs
+  obtain ⟨n3, d3⟩ := normal_optBytes m.payload hpl
+  have n4 : Normal (.array ys) := by simp only [Normal]; exact ⟨by rw [f2]; exact hrl, normalL_of ys (fun z hz => (f3 z hz).1)⟩
+  have d4 : depthOfL ys ≤ j := depthOfL_le j ys (fun z hz => (f3 z hz).2)
+  exact ⟨by simp only [Normal, NormalL]; exact ⟨by simp, n1, n2, n3, htg, n4, trivial⟩, by simp only [depthOf, depthOfL] at d1 d3 ⊢; omega⟩
+
+/-- a single recipient as a standalone message. -/
+theorem recipient_emitted_normal (r : CoseRecipient) (j : Nat) (hj : j ≤ recursionLimit) (hw : r.WF) (hn : CoseRecipient.NF j r)
+    (x : Value) (hx : r.toValue = .ok x) : Normal x ∧ depthOf x ≤ recursionLimit := by
+  obtain ⟨x', h1, h2, h3⟩ := recipient_emit_normal r.height r j (Nat.le_refl _) hw hn
+  rw [h1] at hx; cases hx
+  exact ⟨h2, by omega⟩
+
 /-! ### keys and claims sets -/
 
 /-- field-level normality of a COSE_Key (`k`: nesting budget for the values of the extra parameters). -/
